@@ -129,6 +129,10 @@ def hasDup : List Str → Bool
   | [] => false
   | k :: ks => ks.contains k || hasDup ks
 
+def keysOf : List (Str × PV) → List Str
+  | [] => []
+  | (k, _) :: kvs => k :: keysOf kvs
+
 mutual
 /-- no object anywhere in the tree has a duplicate key -/
 def hookOk : PV → Bool
@@ -143,9 +147,6 @@ def hookOkL : List PV → Bool
 def hookOkK : List (Str × PV) → Bool
   | [] => true
   | (_, v) :: kvs => hookOk v && hookOkK kvs
-def keysOf : List (Str × PV) → List Str
-  | [] => []
-  | (k, _) :: kvs => k :: keysOf kvs
 end
 
 /-- `load_config_string` after `json.loads` produced the raw tree -/
@@ -155,6 +156,13 @@ def loadTree (raw : PV) : R PV :=
     | .dict _ => .ok raw
     | _ => .error (.config .toplevel [])
   else .error .valueError
+
+/-- `load_config_string`; `json.loads` (the decoder proper, before the pairs hook) is a parameter that
+returns the raw tree, `none` = `json.JSONDecodeError` (a `ValueError`) -/
+def loadString (jsonLoads : List Nat → Option PV) (s : List Nat) : R PV :=
+  match jsonLoads (stripComments s) with
+  | .none => .error .valueError
+  | some raw => loadTree raw
 
 /-! ## `config_struct_to_dict` and `dataclasses.asdict` -/
 
@@ -243,6 +251,16 @@ def okMap {α β : Type} (f : α → β) : R α → R β
   | .ok a => .ok (f a)
   | .error e => .error e
 
+/-- the tail of `_parse_config_struct`: "Check for left-over fields", then `cls(**items)` -/
+def structResult (name : Str) (names : List Str) (kvs : List (Str × PV)) (p : Path)
+    (r : R (List (Str × PV))) : R PV :=
+  match r with
+  | .error e => .error e
+  | .ok items =>
+    match firstUnknown names kvs with
+    | some k => .error (.config .unknown (p ++ [.field k]))
+    | .none => .ok (.inst name items)
+
 mutual
 /-- `_parse_config_value(val, field_type, path)` -/
 def parseValue : Ty → PV → Path → R PV
@@ -305,21 +323,9 @@ def parseValue : Ty → PV → Path → R PV
   -- data class
   | .struct name fs, v, p =>
     match v with
-    | .dict kvs =>
-      match parseFields fs kvs p with
-      | .error e => .error e
-      | .ok items =>
-        match firstUnknown (fieldNames fs) kvs with
-        | some k => .error (.config .unknown (p ++ [.field k]))
-        | .none => .ok (.inst name items)
+    | .dict kvs => structResult name (fieldNames fs) kvs p (parseFields fs kvs p)
     -- `dataclasses.is_dataclass(val)`: parse `dataclasses.asdict(val)`
-    | .inst _ ifs =>
-      match parseFields fs (asdictK ifs) p with
-      | .error e => .error e
-      | .ok items =>
-        match firstUnknown (fieldNames fs) (asdictK ifs) with
-        | some k => .error (.config .unknown (p ++ [.field k]))
-        | .none => .ok (.inst name items)
+    | .inst _ ifs => structResult name (fieldNames fs) (asdictK ifs) p (parseFields fs (asdictK ifs) p)
     | _ => mismatch p
 /-- the element loop of a fixed-length tuple (lengths are equal when this is called) -/
 def parseTuple : List Ty → List PV → Nat → Path → R (List PV)
@@ -455,7 +461,9 @@ def render : Nat → PV → List (List Nat)
   | _, .bool false => [[102, 97, 108, 115, 101]]
   | _, .int n => [intLit n]
   | _, .flt l => [floatLit l]
-  | _, .fltOfInt n => [[73, 50, 70, 40] ++ intLit n ++ [41]]      -- placeholder `I2F(n)`, resolved by the harness
+  -- placeholder U+E000 n U+E001 for `repr(float(n))`, resolved by the harness (floats are opaque);
+  -- the two private-use code points cannot come out of a string literal (non-ASCII is escaped)
+  | _, .fltOfInt n => [57344 :: (intLit n ++ [57345])]
   | _, .str s => [strLit s]
   | lvl, .list xs =>
     match xs with
